@@ -93,6 +93,7 @@ THEOREMS = {
             ("getlines_flatten", "getlinesAux_records", "sanitize_clean", "echo_unchanged", "trim_plain", "verdicts_le_lines", "getlinesAux_append_lf", "cliLines_append_lf")] +
            [("Eav.Props.C20Main", "Eav.Props.C20." + n) for n in
             ("step_isEmail_spec", "parseLines_spec", "specLines_blocks", "parseFiles_spec", "tool_setup", "cliMain_files", "cliMain_ok", "trimLine_none_iff", "verdict_count")] +
+           [("Eav.Props.C20Spec", "Eav.Props.C20." + n) for n in ("accepted_shape", "verdict_pass_nonneg", "pass_sound", "fail_has_message")] +
            [("Eav.Props.C13", "Eav.Props.C13.isEmail_outcome"), ("Eav.Props.C13", "Eav.Props.C13.free_releases"), ("Eav.Props.C06", "Eav.Props.C06.step_isEmail_ok")],
 }
 
